@@ -2,6 +2,7 @@
 C10 — exit status, diagnostics and output-file contract of `build`.
 -/
 import GontainerModel.Lemmas.C10Aux
+import GontainerModel.Lemmas.ReadConfig
 import GontainerModel.Model.Runner
 import GontainerModel.Generated.Wiring
 namespace GM.C10
@@ -58,6 +59,89 @@ theorem end_line_count {σ : Type} (ind name : String) (st : σ) (body : String 
     cases hb : (body (ind ++ "  ")).errs <;> simp_all
   simp only [this, Bool.not_true, Bool.false_eq_true, ↓reduceIte, and_true]
   exact List.getLast?_concat
+
+/-! ### the failure kinds of reading the configuration -/
+
+/-- a failure of the read-config step ends the run: exit 1, the -o path untouched -/
+theorem read_failure_exits (w : World) (c : Output.Output → Errs)
+    (h : (readConfig w "  " Input.defaults).errs ≠ []) :
+    (run w c).exit = 1 ∧ (run w c).file = .untouched := by
+  have hv : (verbose "" "Read config" true Input.defaults fun ind => readConfig w ind Input.defaults).errs ≠ [] := by
+    unfold verbose
+    simpa using h
+  have hcore : (core w c).2.1 ≠ [] := by
+    unfold core
+    simp only
+    have : (!(verbose "" "Read config" true Input.defaults fun ind => readConfig w ind Input.defaults).errs.isEmpty) = true := by
+      cases hx : (verbose "" "Read config" true Input.defaults fun ind => readConfig w ind Input.defaults).errs with
+      | nil => exact absurd hx hv
+      | cons _ _ => rfl
+    rw [if_pos this]
+    exact hv
+  have hfile := (core_file w c).2 hcore
+  unfold run finish
+  rcases hc : core w c with ⟨ls, es, f⟩
+  simp only [hc] at hcore hfile ⊢
+  cases es with
+  | nil => exact absurd rfl hcore
+  | cons e es => exact ⟨by simp, hfile⟩
+
+/-- **unreadable or unparsable input**: a file matched by some pattern that cannot be read or decoded fails the step -/
+theorem unreadable_input_fails (w : World) (ind : String) (i0 : Input.Input) (p g : String) (es : Errs)
+    (hp : p ∈ w.patterns) (hg : g ∈ (patternFiles w p).1) (hr : w.read g = .error es) (hne : es ≠ []) :
+    (readConfig w ind i0).errs ≠ [] := by
+  have hpe : w.patterns.isEmpty = false := by cases hw : w.patterns <;> simp_all
+  apply readConfig_errs_ne_nil w ind i0 hpe
+  left
+  obtain ⟨⟨extra, he, _, hx⟩, _, _⟩ := patterns_fold_spec w ind w.patterns ([ind ++ "Patterns"], [], ⟨i0, false, []⟩, 0)
+  rw [he]
+  simpa using hx p hp g hg es hr hne
+
+/-- **a pattern that cannot be globbed** fails the step -/
+theorem glob_error_fails (w : World) (ind : String) (i0 : Input.Input) (p : String)
+    (hp : p ∈ w.patterns) (hg : (patternFiles w p).2 ≠ []) : (readConfig w ind i0).errs ≠ [] := by
+  have hpe : w.patterns.isEmpty = false := by cases hw : w.patterns <;> simp_all
+  apply readConfig_errs_ne_nil w ind i0 hpe
+  left
+  obtain ⟨⟨extra, he, hgx, _⟩, _, _⟩ := patterns_fold_spec w ind w.patterns ([ind ++ "Patterns"], [], ⟨i0, false, []⟩, 0)
+  rw [he]
+  simpa using hgx p hp hg
+
+/-- **no input processed**: if no matched file is read successfully (no pattern, no match, only failures) the step fails -/
+theorem nothing_processed_fails (w : World) (ind : String) (i0 : Input.Input)
+    (h : ∀ p ∈ w.patterns, ∀ g ∈ (patternFiles w p).1, (w.read g).isOk = false) :
+    (readConfig w ind i0).errs ≠ [] := by
+  cases hpe : w.patterns.isEmpty with
+  | true => unfold readConfig; simp [hpe]
+  | false =>
+    apply readConfig_errs_ne_nil w ind i0 hpe
+    right; left
+    obtain ⟨_, hf, _⟩ := patterns_fold_spec w ind w.patterns ([ind ++ "Patterns"], [], ⟨i0, false, []⟩, 0)
+    rw [hf]
+    simp only [Bool.false_or]
+    rw [List.any_eq_false]
+    intro p hp
+    simp only [Bool.not_eq_true]
+    rw [List.any_eq_false]
+    intro g hg
+    simpa using h p hp g hg
+
+/-- **a file matched by two patterns**: a file that is read successfully under two (occurrences of) patterns fails the step -/
+theorem duplicate_match_fails (w : World) (ind : String) (i0 : Input.Input) (f : String)
+    (h : 2 ≤ (w.patterns.filter fun p => decide (f ∈ (patternFiles w p).1) && (w.read f).isOk).length) :
+    (readConfig w ind i0).errs ≠ [] := by
+  have hpe : w.patterns.isEmpty = false := by
+    cases hw : w.patterns with
+    | nil => simp [hw] at h
+    | cons _ _ => rfl
+  apply readConfig_errs_ne_nil w ind i0 hpe
+  right; right
+  obtain ⟨_, _, hc⟩ := patterns_fold_spec w ind w.patterns ([ind ++ "Patterns"], [], ⟨i0, false, []⟩, 0)
+  have hcf := hc f
+  apply dupErrs_ne_nil _ f
+  unfold cnt at hcf
+  simp only at hcf
+  omega
 
 /-- **--quiet**: nothing is printed; exit status, error and file effect are unchanged -/
 theorem quiet_same_effects (w : World) (c : Output.Output → Errs) (q : Bool) :
